@@ -116,6 +116,51 @@ def exit_rule(ctx, facts):
     return n
 
 
+def absorb_rule(ctx, facts):
+    """ABSORB: the mixing hasher that produces the per-pair seed absorbs the element hash and the occurrence number as separate
+    words (one `write_*` each, the argument a plain value): combining them first with `^`, `+`, `|` … maps distinct
+    (element, occurrence) pairs to the same word, and those pairs then run the same race"""
+    fid = POM + "hash_set"
+    fn = facts.fn(fid)
+    t = tree_of(fn)
+    R = resolver_of(fn)
+    ctx.rule("ABSORB", "the hasher that mixes the per-pair seed absorbs the element hash and the occurrence number through separate write_* "
+                       "calls whose arguments are plain values (a local, a field, a cast of one), at least two of them: no arithmetic or bitwise "
+                       "combination of the two is absorbed as one word")
+    mixers = [x for x in user_nodes(fn) if x["k"] == "Let" and x["pat"].get("k") == "Bind" and "init" in x
+              and any(y["k"] == "Call" and short(y.get("callee", "")) == "with_seed" for y in hirq.walk(x["init"]))]
+    if len(mixers) != 1:
+        ctx.violation("ABSORB", fid, "cannot-establish: seed mixer", hirq.loc(fn), "expected one WyHash::with_seed(..) local that mixes the per-pair seed, found %d" % len(mixers))
+        return
+    mname = mixers[0]["pat"]["name"]
+    writes = [x for x in user_nodes(fn) if x["k"] == "MethodCall" and x["name"].startswith("write") and nf.nf(x["recv"]) == mname]
+    bad = []
+    for w in writes:
+        a = nf.strip_casts(w["args"][0]) if w["args"] else None
+        # through immutable locals
+        while a is not None and a["k"] == "Path" and "local" in a["res"]:
+            d = R.lookup(a["res"]["local"], a)
+            if d is None:
+                break
+            nxt = nf.strip_casts(d)
+            if nxt["k"] in ("Binary", "AssignOp") or (nxt["k"] == "MethodCall" and nxt["name"] in ("wrapping_add", "wrapping_mul", "wrapping_sub", "rotate_left", "rotate_right", "bitxor", "bitor", "bitand")):
+                a = nxt
+                break
+            if nxt["k"] != "Path":
+                break
+            a = nxt
+        if a is not None and (a["k"] == "Binary" or (a["k"] == "MethodCall" and a["name"] in ("wrapping_add", "wrapping_mul", "wrapping_sub", "bitxor", "bitor", "bitand"))):
+            bad.append((w, a))
+    if bad:
+        for (w, a) in bad:
+            ctx.violation("ABSORB", fid, "combined word absorbed", hirq.loc(w),
+                          "`%s` absorbs `%s`, a combination of values, as one word: distinct (element, occurrence) pairs that combine to the same word get the same generator" % (hirq.show(w)[:50], nf.nf(a, True)[:60]))
+    elif len(writes) < 2:
+        ctx.violation("ABSORB", fid, "single absorbed word", hirq.loc(mixers[0]), "the seed mixer absorbs %d word(s); the element hash and the occurrence number must each be absorbed" % len(writes))
+    else:
+        ctx.ok("ABSORB", fid, "seed mixer absorbs %s as separate words" % ", ".join(nf.nf(w["args"][0], True)[:20] for w in writes), hirq.loc(writes[0]))
+
+
 def seed_rule(ctx, facts):
     n = check_seeds(ctx, facts, "SEED", SEED_TABLE)
     fid = POM + "hash_set"
@@ -419,6 +464,7 @@ def run(ctx, facts):
     ctx.floor("C11 race loop exits", e, 2)
     s = seed_rule(ctx, facts)
     ctx.floor("C11 seeding sites", s, 1)
+    absorb_rule(ctx, facts)
     occurrence_rule(ctx, facts)
     st = store_rules(ctx, facts)
     ctx.floor("C11 store writes", st, 3)
